@@ -286,6 +286,21 @@ Theorem C03_parse2_written : forall d ind b, indent_ok ind = true -> write_ttml_
 Proof. exact parse2_written. Qed.
 Print Assumptions C03_parse2_written.
 
+(* Second audit, N2.  [C03_read_rendered_bytes] lets the printing choice put a line break before an attribute inside a
+   tag ([pc_gap]).  The library used to strip the indentation of a paragraph's inner XML line-wise regardless of context,
+   gluing "<span\n tts:color" into "<spantts:color" (XML syntax error): a defect, repaired in the repository ("fix: TTML
+   reader keeps attributes apart when a line break inside a tag is removed with the indentation"; seed
+   seeded/C03-line-break-inside-a-tag-glues-attributes).  The tree-level model never saw the difference (white space inside
+   a tag is not part of the token tree); the harness now generates line breaks inside span and br tags and counts them
+   (ttml.freedom.linebreak_in_tag.*, ttml.read.start_tags_with_a_line_break_inside) instead of skipping them.  What remains
+   outside: a line break inside a quoted attribute VALUE of an element inside a paragraph is replaced by a blank by the
+   stripping (the value changes); [bytes_ok_go] excludes it, and this is the byte-level statement that is true of the library: *)
+Theorem C03_read_rendered_bytes_go : forall r m pc prolog,
+  render_ok r m = true -> bytes_ok_go r m = true -> pchoice_ok pc (render_std r m) = true -> prolog_ok prolog = true ->
+  exists t, xml_parse2 (prolog ++ print2 print_name pc (render_std r m)) = Some t /\ read_ttml t = Ok (denote_ttml r m).
+Proof. exact read_rendered_bytes_go. Qed.
+Print Assumptions C03_read_rendered_bytes_go.
+
 (* ---------------- totality ---------------- *)
 Theorem C03_read_total : forall root s, read_ttml root <> Panic s.
 Proof. exact read_ttml_total. Qed.
